@@ -95,7 +95,7 @@ type Ctx struct {
 
 	curFamily string
 	curIdx    uint64
-	progress  uint64 // atomically bumped per case
+	progress  atomic.Uint64 // bumped per case and per library call (Eval)
 	replaying bool
 	// Input of the case in flight (set by the runner before calling into the library).
 	inflight atomic.Value
@@ -106,10 +106,20 @@ func newResult() *Result {
 }
 
 // Eval counts one execution of the code under test.
-func (c *Ctx) Eval() { c.mu.Lock(); c.Res.Evaluations++; c.mu.Unlock() }
+func (c *Ctx) Eval() {
+	c.progress.Add(1)
+	c.mu.Lock()
+	c.Res.Evaluations++
+	c.mu.Unlock()
+}
 
 // EvalN counts n executions.
-func (c *Ctx) EvalN(n int64) { c.mu.Lock(); c.Res.Evaluations += n; c.mu.Unlock() }
+func (c *Ctx) EvalN(n int64) {
+	c.progress.Add(1)
+	c.mu.Lock()
+	c.Res.Evaluations += n
+	c.mu.Unlock()
+}
 
 // Count bumps a coverage counter.
 func (c *Ctx) Count(key string, n int64) { c.mu.Lock(); c.Res.Counters[key] += n; c.mu.Unlock() }
@@ -367,7 +377,7 @@ func RunWorker(id, tier string, shard, nshard int, out string, only ...string) i
 		c.curFamily = fam.Name
 		for idx := uint64(shard); idx < n; idx += uint64(nshard) {
 			c.curIdx = idx
-			atomic.AddUint64(&c.progress, 1)
+			c.progress.Add(1)
 			runCase(c, &fam, idx)
 		}
 	}
@@ -401,7 +411,7 @@ func trimStack(b []byte) string {
 // watchdog: generous wall-clock bound per case. Its firing is not a verdict;
 // the parent re-runs the case in isolation.
 func (c *Ctx) watchdog(progressFile string, stop chan struct{}) {
-	last := atomic.LoadUint64(&c.progress)
+	last := c.progress.Load()
 	lastChange := time.Now()
 	cpuAtChange := processCPU()
 	limit := 120 * time.Second
@@ -418,7 +428,7 @@ func (c *Ctx) watchdog(progressFile string, stop chan struct{}) {
 			return
 		case <-t.C:
 		}
-		cur := atomic.LoadUint64(&c.progress)
+		cur := c.progress.Load()
 		if cur != last {
 			last = cur
 			lastChange = time.Now()
@@ -512,7 +522,12 @@ func RunReplay(id, path string) int {
 		}
 		c.curFamily = fam.Name
 		c.curIdx = rr.Index
+		// the same progress-based watchdog as in the workers: exit status 3 means that no library
+		// call completed within the limit although the process was running
+		stop := make(chan struct{})
+		go c.watchdog(path+".iso", stop)
 		runCase(c, &fam, rr.Index)
+		close(stop)
 		if c.Res.NViolations > 0 {
 			fmt.Printf("VIOLATION property=%s replay=%s\n", id, path)
 			return 1
@@ -834,13 +849,16 @@ func (c *Ctx) isolate(self string, stuck []byte, k int) string {
 	go func() { done <- cmd.Wait() }()
 	select {
 	case err := <-done:
+		if ee, ok := err.(*exec.ExitError); ok && ee.ExitCode() == 3 {
+			return "hang" // the isolated run's own watchdog: no library call completed within the limit
+		}
 		if err != nil {
 			return "finished: " + err.Error()
 		}
 		return "finished"
-	case <-time.After(120 * time.Second):
+	case <-time.After(45 * time.Minute):
 		cmd.Process.Kill()
-		return "hang"
+		return "not finished after 45 minutes of wall clock (inconclusive)"
 	}
 }
 
